@@ -298,14 +298,63 @@ theorem value_shows (specs : List Spec) (pal : Palette) (attrs : List Attr)
     · have := h3 []
       simpa [strip_nil, plainText, CHText.Text.cells] using this
 
-/-- in particular for the result of any operation tree -/
-theorem ops_show (specs : List Spec) (pal : Palette) (attrs : List Attr)
+/-- **the judged path of the driver.** The observable `cht` / `make` / `hist` / `ops` lines carry the
+chunk list the real object reports, and the driver answers with `renderGiven` of that list. For every
+given list whose chunks are escape-free and either name a formatter of the line's (valid) palette or
+are `raw` chunks passing the well-formedness test the driver makes (`rawOk`: the prefix is one SGR
+sequence of parameters the terminal accepts, the suffix one that resets from there): the terminal
+shows exactly the given characters, each chunk's with the attributes of its formatter (raw: of its
+prefix), is in default state after every chunk (the rendering cut after any number of chunks ends in
+default state) and at the end, and stripping gives the concatenated chunk texts. -/
+theorem given_shows (specs : List Spec) (pal : Palette) (attrs : List Attr)
     (hp : mkPalette cfg specs = .ok pal) (ha : wantedAttrs specs = some attrs)
-    (e : CHText.Expr) (t : CHText.Text) (_he : CHText.eval e = .ok (.text t))
-    (s : List Char) (hr : renderText pal t = some s) (hne : NoEsc (plainText t)) :
-    ∃ screen, screenOf attrs t.cells = some screen ∧
-      interp s = some (screen, Attr.default) ∧ strip cls fin s = plainText t :=
-  value_shows specs pal attrs hp ha t s hr hne
+    (gs : List Given) (s : List Char) (hr : renderGiven pal gs = some s)
+    (hok : ∀ g ∈ gs, g.ok = true) (hne : ∀ g ∈ gs, NoEsc g.text) :
+    ∃ screen cs, givenChunks pal gs = some cs ∧ s = render cs ∧
+      givenScreen attrs gs = some screen ∧ screen.map Prod.fst = gs.flatMap Given.text ∧
+      interp s = some (screen, Attr.default) ∧
+      (∀ k, ∃ shown, interp (render (cs.take k)) = some (shown, Attr.default)) ∧
+      strip cls fin s = gs.flatMap Given.text ∧ plain cs = gs.flatMap Given.text := by
+  rw [sgr_std] at hp
+  have hg := palGood_of_specs cls fin strip_class fin_m strip_final.2 specs pal attrs hp ha
+  simp only [renderGiven] at hr
+  cases hc : givenChunks pal gs with
+  | none => simp [hc] at hr
+  | some cs =>
+    simp [hc] at hr; subst hr
+    obtain ⟨screen, h1, h2, h3, h4, h5⟩ :=
+      SgrText.given_shows cls fin strip_class fin_m strip_final.2 pal attrs hg gs cs hc hok hne
+    have hint : interp (render cs) = some (screen, Attr.default) := by
+      have := h2 []
+      simpa [interp, run, prepend] using this
+    have hchars : screen.map Prod.fst = gs.flatMap Given.text := by
+      clear h2 h3 h4 h5 hint hc hok hne
+      induction gs generalizing screen with
+      | nil => simp [givenScreen] at h1; subst h1; rfl
+      | cons g gs ih =>
+        simp only [givenScreen] at h1
+        cases hga : g.attr attrs with
+        | none => simp [hga] at h1
+        | some a =>
+          cases hrest : givenScreen attrs gs with
+          | none => simp [hga, hrest] at h1
+          | some r =>
+            simp [hga, hrest] at h1; subst h1
+            simp [ih r hrest, List.map_map, Function.comp_def]
+    refine ⟨screen, cs, rfl, rfl, h1, hchars, hint, ?_, ?_, h5⟩
+    · intro k
+      apply render_resets
+      intro c hcm
+      exact h3 c (List.mem_of_mem_take hcm)
+    · have := h4 []
+      simpa [strip_nil] using this
+
+/-- the same function on `CHText` values: `renderText` (the subject of `value_shows`) is
+`renderGiven` of the value's own chunks, so the judged path and the theorem about every value of
+the C08 model speak about one rendering -/
+theorem given_of_value (pal : Palette) (t : CHText.Text) :
+    renderText pal t = renderGiven pal (t.chunks.map fun c => Given.byId c.col c.text) := by
+  simp only [renderText, renderGiven, toChunks_given]
 
 /-- a palette with an invalid colour value cannot be made: `ValueError` -/
 theorem palette_invalid (specs : List Spec) (h : wantedAttrs specs = none) :
